@@ -1,10 +1,30 @@
 """C12 — cycle accounting follows the documented latency model (DESIGN §4 C12)."""
 from collections import Counter
 from .core import Lock, TRUSTED_COMMON
-from . import cpu
+from . import cpu, cpucheck
 
 MODS = ["MajoranaVerif.Props.C12"]
 WIDTH = lambda v, par: 1 if v in ("mvp1", "mvp2", "mvp3", "mvp4", "mvp5") else par
+
+
+REGWRITERS = cpu.R3 | cpu.I3 | {"jalr", "lui", "auipc", "li", "jal", "mv", "lb", "lh", "lw"}
+
+
+def documented_mvp1_cycles(prog, ref):
+    """independent oracle: the documented latency model evaluated on the reference path"""
+    ins = cpu.decode(prog)
+    path = [int(x) for x in ref.get("path", "").split(",") if x != ""]
+    total = 0
+    for i in path:
+        if i >= len(ins):
+            return None
+        m = ins[i][0]
+        load = m in ("lb", "lh", "lw")
+        total += 309 + 1 + (309 if load else 0) + (50 if load else 1)
+        total += 1 if m in REGWRITERS else (309 if m in ("sb", "sh", "sw") else 0)
+    if ref["stop"] == "ret":
+        total += 309 + 1 + 1   # the final ret: fetch, decode, execute; no write-back
+    return total
 
 
 def run(ck):
@@ -31,6 +51,9 @@ def run(ck):
     if not (ok and okh):
         ck.finish("proof")
         return
+    findings = [k for k in cpucheck.load_findings() if "C12" in k.get("properties", [k.get("property")])]
+    for k in findings:
+        ck.known.append(f"KNOWN-FINDING: property=C12 {k['id']}: on the renaming variants the cycle count of one input is not repeatable (map-order choice among in-flight writers), hence not value-independent")
     ins, go, lean = ck.run_stream("cpu-c12")
     n_runs = 0
     tie_bad, prop_bad = [], []
@@ -65,6 +88,12 @@ def run(ck):
         if m1 and m1["status"] == "ok" and "m1" in ref and int(ref["m1"].split(",")[1]) != m1["cycles"]:
             prop_bad.append({"clause": "MVP-1 cycle count = sum of fetch+decode+memory-read+execute+write-back latencies (Props.C12.mvp1_exact evaluated on this run)",
                              "case": c["id"], "program": c["prog"], "go": m1["cycles"], "formula": ref["m1"], "case_dict": cpu.case_dict(c)})
+        # the documented formula, computed independently of the Lean model from the reference path
+        if m1 and m1["status"] == "ok" and ref.get("path") is not None and len(ref.get("path", "").split(",")) < 2999:
+            exp = documented_mvp1_cycles(c["prog"], ref)
+            if exp is not None and exp != m1["cycles"]:
+                prop_bad.append({"clause": "MVP-1 cycle count = documented sum (fetch 309 + decode 1 + memory read 309 for loads + execute 50 for loads else 1 + write-back 1 for register results / 309 for stores)",
+                                 "case": c["id"], "program": c["prog"], "go": m1["cycles"], "documented": exp, "case_dict": cpu.case_dict(c)})
         for r in res:
             if r["status"] != "ok":
                 continue
@@ -80,6 +109,10 @@ def run(ck):
                 for k, r in by.items():
                     q = pby.get(k)
                     if q and r["status"] == "ok" and q["status"] == "ok" and r["cycles"] != q["cycles"]:
+                        kf = cpucheck.classify(findings, "C12", k[0], cpu.features(c, ref))
+                        if kf:   # e.g. the renaming variants pick among in-flight writers in Go map order: timing is not even repeatable
+                            twins[f"excused:{kf}@{k[0]}"] += 1
+                            continue
                         prop_bad.append({"clause": "cycle count independent of operand values (same path, same addresses)", "variant": k[0], "par": k[1],
                                          "cycles_a": q["cycles"], "cycles_b": r["cycles"], "program": c["prog"], "regs_a": pc["regs"], "regs_b": c["regs"],
                                          "case_dict": cpu.case_dict(c)})
